@@ -36,7 +36,7 @@ class SharedTimedMutex : public SharedMutex {
   template <typename Timeout>
   bool TimedWaitHelper(const Timeout& timeout, bool exclusive) {
     bool r = true;
-    if (_occupied && (exclusive || _exclusive_mode)) {
+    while (r && _occupied && (exclusive || _exclusive_mode)) {
       if (exclusive) {
         r = _exclusive_queue.Wait(timeout) == WaitStatus::Ready;
       } else {
